@@ -65,6 +65,10 @@ func tlsOrGM(proto string) map[string]uint16 {
 func runHistory(ops []resOp, proto string, capN int) ([]resObs, error) {
 	gcfc := strings.HasSuffix(proto, "+gcfc")
 	proto = strings.TrimSuffix(proto, "+gcfc")
+	// "+clone": one long-lived server Config receives the key rotations; every connection is served by a Clone of it
+	cloned := strings.HasSuffix(proto, "+clone")
+	proto = strings.TrimSuffix(proto, "+clone")
+	var front *gmtls.Config
 	f, err := loadFixtures()
 	if err != nil {
 		return nil, err
@@ -250,7 +254,17 @@ func runHistory(ops []resOp, proto string, capN int) ([]resObs, error) {
 					return inner, err
 				}
 			}
-			sc.SetSessionTicketKeys(kk)
+			if cloned {
+				if front == nil {
+					front = sc
+				}
+				front.SetSessionTicketKeys(kk)
+				cl := front.Clone()
+				cl.CipherSuites, cl.SessionTicketsDisabled, cl.ClientAuth, cl.ClientCAs = sc.CipherSuites, sc.SessionTicketsDisabled, sc.ClientAuth, sc.ClientCAs
+				sc = cl
+			} else {
+				sc.SetSessionTicketKeys(kk)
+			}
 			cc.CipherSuites = pick(csuites)
 			cc.ServerName = op.Name
 			cc.ClientSessionCache = cache
